@@ -514,13 +514,47 @@ func c09R4(p *Prog, r *Report) {
 		}
 	}
 	r.Check(lastOK, rule, "router.lookup:no-resolver-is-error", p.posStr(lk.Body.Pos()), "falls through to a non-nil error when no resolver answered", "lookup can return a zero address with a nil error when no resolver answered: IP conditions are then evaluated on the zero address")
-	// resolver iteration: continue only on dns.ErrLookup
+	// resolver iteration: the next resolver is tried only on err == dns.ErrLookup (any test
+	// shape), and any other outcome is returned
 	contOK := false
+	isErrLookup := func(e ast.Expr) bool { return exprStr(e) == "dns.ErrLookup" }
+	var eqEdges []Edge
 	for _, v := range lk.G.V {
 		x, y, op, ok := condParts(v)
-		if ok && y != nil && op == token.EQL && (exprStr(y) == "dns.ErrLookup" || exprStr(x) == "dns.ErrLookup") {
-			contOK = true
+		if !ok || y == nil || (op != token.EQL && op != token.NEQ) || !(isErrLookup(x) || isErrLookup(y)) {
+			continue
 		}
+		lab := LTrue
+		if op == token.NEQ {
+			lab = LFalse
+		}
+		for _, e := range v.Succs {
+			if e.Label == lab {
+				eqEdges = append(eqEdges, e)
+			}
+		}
+	}
+	for _, cs := range lk.AllCalls() {
+		if cs.Fn == nil || cs.Fn.Name() != "LookupIP" {
+			continue
+		}
+		blocked := map[Edge]bool{}
+		for _, e := range eqEdges {
+			blocked[e] = true
+		}
+		reach := lk.G.ReachAfter(cs.V, func(v *Vertex) bool { return v.ID == cs.V }, func(e Edge) bool { return blocked[e] })
+		headReached, retReached := false, false
+		for _, v := range lk.G.V {
+			if v.Kind == VRange && reach[v.ID] {
+				headReached = true
+			}
+		}
+		for _, ret := range lk.Returns() {
+			if reach[ret] {
+				retReached = true
+			}
+		}
+		contOK = len(eqEdges) > 0 && !headReached && retReached
 	}
 	r.Check(contOK, rule, "router.lookup:next-resolver-on-lookup-failure-only", p.posStr(lk.Body.Pos()), "moves to the next resolver only on dns.ErrLookup", "the resolver loop does not distinguish a failed lookup from an answer")
 	r.Count("bool_error_returns", n)
